@@ -3,6 +3,7 @@ package zsim
 import (
 	"context"
 	"fmt"
+	"path/filepath"
 	"sync"
 	"time"
 )
@@ -18,7 +19,20 @@ func genC17(seed uint64, tier string) *Plan {
 	p.Cfg.CoalesceNanos = int64(PickOne(r, []time.Duration{time.Millisecond, 20 * time.Millisecond, 500 * time.Millisecond, 3 * time.Second}))
 	p.Cfg.IterConcurrency = PickOne(r, []int{1, 2, 4})
 	span := int64(PickOne(r, []time.Duration{20 * time.Second, 2 * time.Minute}))
-	genDataset(r, p, u, SchemaOpts{MaxTables: 2, AllowRaw: true, RetMin: 40 * time.Minute, RetMax: 3 * time.Hour}, 3, 40, span, 0.1, 0.1)
+	pts := genDataset(r, p, u, SchemaOpts{MaxTables: 2, AllowRaw: true, RetMin: 40 * time.Minute, RetMax: 3 * time.Hour}, 3, 40, span, 0.1, 0.1)
+	var late []Op
+	if r.Bool(0.5) {
+		// no timer flushes; some points arrive after the last flush and stay in
+		// the memstore while the queries run, so that disk-only and
+		// memstore-inclusive queries differ (and may share one scan)
+		p.Cfg.Extra = map[string]int64{"noTimer": 1}
+		streams := streamsOf(p.Tables)
+		for i, n := 0, r.Range(1, 6); i < n; i++ {
+			pt := genPoint(r, u, p.Tables, PointOpts{SpanNanos: span, Streams: streams, NoOdd: true}, pts, 300+i)
+			pts = append(pts, pt)
+			late = append(late, Op{K: "late", P: pt})
+		}
+	}
 	k := r.Range(2, 8)
 	o := AllQ
 	o.DataSpan = span
@@ -40,18 +54,29 @@ func genC17(seed uint64, tier string) *Plan {
 			off = p.Cfg.CoalesceNanos + r.Int64N(p.Cfg.CoalesceNanos+1)
 		}
 		sub := Op{K: "q", S: q.SQL(), B: r.Bool(0.8), N: off}
+		if len(late) > 0 {
+			sub.B = r.Bool(0.5)
+		}
 		// consumer behaviour: 0 read all, >0 stop after n rows, N2<0: slow consumer
 		if r.Bool(0.2) {
 			sub.N2 = int64(r.Range(1, 5))
+			if r.Bool(0.3) {
+				sub.S2 = "err" // the consumer fails instead of stopping cleanly
+			}
 		}
 		conc.Sub = append(conc.Sub, sub)
 	}
+	conc.Sub = append(conc.Sub, late...)
 	p.Ops = append(p.Ops, conc)
 	return p
 }
 
 func execC17(e *Env, p *Plan) error {
-	n, err := openStandalone(e, p, "n0")
+	tables := p.Tables
+	if p.Cfg.Extra["noTimer"] > 0 {
+		tables = tablesWithFlush(p.Tables, int64(time.Hour), int64(1000*time.Hour))
+	}
+	n, err := e.OpenNode("n0", filepath.Join(e.Root, "n0-g0"), dbOpts(&p.Cfg), tables)
 	if err != nil {
 		return err
 	}
@@ -71,6 +96,23 @@ func execC17(e *Env, p *Plan) error {
 			// the solo and the concurrent executions
 			n.DB.FlushAll()
 			e.Sleep(time.Millisecond)
+			// late points stay in the memstore (tables without flush timer)
+			var qs []Op
+			for j := range op.Sub {
+				if op.Sub[j].K == "late" {
+					time.Sleep(time.Microsecond)
+					if err := n.Insert(op.Sub[j].P); err != nil {
+						return err
+					}
+					e.Count("probe.unflushed-during-concurrent")
+				} else {
+					qs = append(qs, op.Sub[j])
+				}
+			}
+			if len(qs) < len(op.Sub) {
+				e.Settle()
+			}
+			op = &Op{K: op.K, Sub: qs}
 			k := len(op.Sub)
 			// plan every query twice at the same simulated instant
 			solo := make([]*Prepared, k)
@@ -81,6 +123,9 @@ func execC17(e *Env, p *Plan) error {
 			}
 			consumer := func(j int) QOpts {
 				stop := op.Sub[j].N2
+				if op.Sub[j].S2 == "err" {
+					return QOpts{Ctx: context.Background(), ErrAt: int(stop)}
+				}
 				return QOpts{Ctx: context.Background(), OnRow: func(i int, row *QRow) bool {
 					if stop > 0 && int64(i+1) >= stop {
 						return false
@@ -114,7 +159,13 @@ func execC17(e *Env, p *Plan) error {
 				}
 				e.Logf("q%d %q solo=%d conc=%d", j, op.Sub[j].S, len(a.Rows), len(b.Rows))
 				if ok, diff := sameRows(a, b); !ok {
-					return &Violation{"concurrent-differs", fmt.Sprintf("query %d %q (includeMemStore=%v, stop after %d rows) returned a different result when run together with %d other queries than when run alone: %s\nall queries: %s", j, op.Sub[j].S, op.Sub[j].B, op.Sub[j].N2, k-1, diff, allSQL(op.Sub))}
+					sig := "concurrent-differs"
+					if (a.Err != nil) != (b.Err != nil) {
+						sig = "concurrent-differs:error"
+					} else if !op.Sub[j].B {
+						sig = "concurrent-differs:disk-only"
+					}
+					return &Violation{sig, fmt.Sprintf("query %d %q (includeMemStore=%v, stop after %d rows) returned a different result when run together with %d other queries than when run alone: %s\nall queries: %s", j, op.Sub[j].S, op.Sub[j].B, op.Sub[j].N2, k-1, diff, allSQL(op.Sub))}
 				}
 				if a.Err == nil && len(a.Rows) > 0 {
 					nonEmpty++
